@@ -2838,8 +2838,11 @@ class WorkflowGraph(object):
             ref_condition, (cond_stage, cond_name)
         ))
 
+        # VV: The condition is produced by the looped component of stage cond_stage (relative to the document);
+        #     a looped component of some other stage may have the same name
         condition_instances = sorted(
-            [c for c in all_looped_ids if c[1].split('#', 1)[1] == cond_name],
+            [c for c in all_looped_ids if c[1].split('#', 1)[1] == cond_name
+             and int(c[0]) == cond_stage + import_in_stage],
             # VV: Sort on iteration number from stage<idx:%d>.<iteration-no:%d>#<name:str>
             key=lambda c: int(c[1].split('#', 1)[0]),
             reverse=True
